@@ -18,20 +18,35 @@ One case = one *fault history* followed by HEAL and a QUIET PERIOD:
   heal            every pair (voter-voter, observer-voter) is `connect`ed (an endpoint that never noticed the loss
                   gets a second onNodeConnected, as with the real TCP transport); nothing is held back any more.
   quiet period    at most QUIET x raftMaxTimeout of virtual time in steps of 1/16 s: every node ticks each step,
-                  every message is delivered each step.  As soon as one leader is known to everybody a fresh
-                  command is submitted on a seeded node (leader / follower / read-only node), at the latest after
-                  half of the period.  The run ends TAIL x raftMaxTimeout after everything below held for the first
-                  time (stability), or when the period is used up.
+                  every message is delivered each step.  Two fresh commands are submitted on seeded nodes (leader /
+                  follower / read-only node / the node that lagged): `early` the first time one leader is named by
+                  everybody, `post` once that has been the same leader for STABLE x raftMaxTimeout (nobody is about
+                  to start an election any more), at the latest after half of the period.  The run ends
+                  TAIL x raftMaxTimeout after everything below held for the first time (stability), or when the
+                  period is used up.
 
 Monitors = the property statement, read through public observations only (`_isLeader()`, `_getLeader()`,
-callbacks, `raftLastApplied`, the free state machine's list `obj.log`), evaluated at the END of the quiet period:
+callbacks, `raftLastApplied`, the free state machine's list `obj.log`), evaluated at the END of the quiet period
+(the messages on the wire are consulted only to choose the detail suffix of a signature):
 
-  convergence:no-single-leader                   not exactly one voter reports leader, or some node's `_getLeader()`
-                                                 does not name it
-  convergence:post-heal-command-not-acknowledged the callback of the post-heal command did not fire with SUCCESS
-  convergence:replica-stays-behind               a voter / read-only node has another `raftLastApplied` than the leader
-  convergence:states-differ                      `obj.log` differs between nodes
-  tick:exception-escapes                         an exception left doTick / a transport callback
+  convergence:no-single-leader                     not exactly one voter reports leader, some node's `_getLeader()` does
+                                                   not name it, or the leader keeps changing (not the same one for TAIL
+                                                   election timeouts)
+  convergence:post-heal-command-not-acknowledged:<detail>
+        command `post`  (submitted once the same single leader was named by everybody for STABLE election timeouts):
+                        its callback must fire with SUCCESS.  detail = no-callback | error-<FAIL_REASON> |
+                        submitter-stays-behind | skipped-by-snapshot-on-submitter
+        command `early` (submitted the first time one leader is named by everybody; leadership may still change, so
+                        an error callback is accepted - LEADER_CHANGED etc. leave the outcome open): no message is lost
+                        after the heal, so if it ends up applied on all replicas its submitter must have got a callback.
+                        detail = applied-without-callback | submitter-stays-behind | skipped-by-snapshot-on-submitter
+  convergence:replica-stays-behind:<detail>        a voter / read-only node has another `raftLastApplied` than the leader;
+                                                   detail = alternating-reset-hints | repeated-reset-hint | no-rejections
+  convergence:states-differ                        two nodes at the same applied position hold different `obj.log`
+  tick:exception-escapes                           an exception left doTick / a transport callback
+
+Virtual time inside one tick: see Hist._guard (the only place where the harness touches a clock by itself).
+Reads besides the public API: `_getTerm()` (coverage only: stale leader at heal time).  No private attribute is read.
 """
 import hashlib
 import json
@@ -47,6 +62,9 @@ ORDER = 60
 
 QUIET = 40          # quiet period, in raftMaxTimeouts
 TAIL = 3            # stability tail after first convergence, in raftMaxTimeouts
+STABLE = 1.25       # the fresh command is submitted once the same leader was named by all for this long (raftMaxTimeouts)
+FAIL_NAMES = {0: "SUCCESS", 1: "QUEUE_FULL", 2: "MISSING_LEADER", 3: "DISCARDED", 4: "NOT_LEADER", 5: "LEADER_CHANGED",
+              6: "REQUEST_DENIED"}
 DT = 0.0625
 HERE = os.path.dirname(os.path.abspath(__file__))
 CORPUS = os.path.join(os.path.dirname(os.path.dirname(HERE)), "corpus", "c05")
@@ -317,6 +335,7 @@ def d_stale_leader(h, var):
     h.run(4)
     grp = [L] + (h.O[:1] if (h.O and var.get("obs_with_leader")) else [])
     rest = [x for x in h.A if x not in grp]
+    h.notes["lagging"] = L
     h.isolate(grp, var["mode"])
     h.submit(L, "mid", var["stale_cmds"])
     if h.O and var.get("obs_with_leader"):
@@ -362,6 +381,7 @@ def d_lag_snapshot(h, var):
         h.ev("compact", F)
         h.run(3)
     rest = [x for x in h.A if x != F]
+    h.notes["lagging"] = F
     h.isolate([F], var["mode"])
     if F == L:
         h.submit(F, "mid", 3)                # uncommitted tail of the old leader: must be replaced by the snapshot
@@ -454,6 +474,7 @@ def d_term_inflation(h, var):
     h.submit(L, "tiny", 2)
     h.run(3)
     F = L if var["who"] == "leader" else [v for v in h.V if v != L][0]
+    h.notes["lagging"] = F
     rest = [x for x in h.A if x != F]
     h.isolate([F], "silent" if var["mode"] == "silent" else "outside")
     for k in range(var["rounds"]):
@@ -613,10 +634,10 @@ def _behind(h, L):
     return out
 
 
-def _differ(h, L):
+def _differ(h, L, among=None):
     s = h.sim
     ref = list(s.objs[L].log)
-    for i in h.A:
+    for i in (among if among is not None else h.A):
         if list(s.objs[i].log) != ref:
             return i, list(s.objs[i].log), ref
     return None
@@ -676,20 +697,32 @@ def scenario(repo, p, workdir=None):
     # ---- quiet period ----
     max_steps = int(p.get("quiet", QUIET) * unit / DT)
     tail_steps = int(TAIL * unit / DT)
-    post_cid, post_node, post_step = None, None, None
+    stable_steps = int(STABLE * unit / DT)
+    early_cid = early_node = early_step = None
+    post_cid = post_node = post_step = None
     t_leader = t_sync = t_ack = None
-    first_ok = None
-    step = 0
+    first_ok = stable_since = stable_L = None
+    step = changes = 0
     while step < max_steps:
         for i in h.A:
             s.tick(i, DT)
         h.deliver_all()
         step += 1
         L, why = _leader_view(h)
-        if L is not None and t_leader is None:
-            t_leader = step * DT
-        if post_cid is None and (L is not None or step >= max_steps // 2):
-            post_node = _post_target(h, p, L)
+        if L is None or L != stable_L:
+            if L is not None:
+                changes += 1
+            stable_L, stable_since = L, (step if L is not None else None)
+        if L is not None and early_cid is None:
+            # first moment at which one leader is reported and named by everybody (may still be deposed)
+            early_node = _post_target(h, p, L, "early")
+            early_cid = s.submit(early_node, "early")
+            early_step = step
+        if post_cid is None and ((stable_since is not None and step - stable_since >= stable_steps)
+                                 or step >= max_steps // 2):
+            # the same leader for more than one full election timeout: nobody is about to start an election
+            t_leader = (stable_since if stable_since is not None else step) * DT
+            post_node = _post_target(h, p, L, "post")
             post_cid = s.submit(post_node, "post")
             post_step = step
             continue
@@ -716,24 +749,58 @@ def scenario(repo, p, workdir=None):
     waited = "%.2f s = %.1f raftMaxTimeout of quiet time" % (step * DT, step * DT / unit)
     if L is None:
         viol.append({"signature": "convergence:no-single-leader", "what": "%s after %s" % (why, waited)})
+    elif stable_since is not None and step - stable_since < min(tail_steps, step - 1):
+        # one leader at this instant, but it is not the one of TAIL election timeouts ago: leadership keeps changing
+        viol.append({"signature": "convergence:no-single-leader",
+                     "what": "leadership does not settle: %s is named by everybody only since %.2f s, %d leader changes in %s"
+                             % (L, (step - stable_since) * DT, changes, waited)})
     acked = [(res, err) for (node, cid, res, err) in s.callbacks if cid == post_cid]
     if post_cid is not None and not (acked and acked[0][1] == 0):
-        viol.append({"signature": "convergence:post-heal-command-not-acknowledged",
-                     "what": "command submitted on %s %.2f s after the heal: %s after %s"
-                             % (post_node, (post_step or 0) * DT,
+        detail = ("error-%s" % FAIL_NAMES.get(acked[0][1], acked[0][1])) if acked else \
+            ("skipped-by-snapshot-on-submitter" if _skipped(h, post_node, "post") else
+             ("submitter-stays-behind" if "post" not in s.objs[post_node].log and L is not None and "post" in s.objs[L].log
+              else "no-callback"))
+        viol.append({"signature": "convergence:post-heal-command-not-acknowledged:" + detail,
+                     "what": "command submitted on %s %.2f s after the heal (same single leader for %.2f s before): %s after %s"
+                             % (post_node, (post_step or 0) * DT, STABLE * unit,
                                 ("callback fired with err=%r" % (acked[0][1],)) if acked else "no callback", waited)})
+    # the command submitted at the first sight of a single leader may be answered with an error while leadership
+    # is still settling (LEADER_CHANGED etc. leave the outcome open), but no message is lost after the heal: if
+    # it was applied, its submitter must have been told something, and SUCCESS unless leadership changed under it
+    e_acked = [(res, err) for (node, cid, res, err) in s.callbacks if cid == early_cid]
+    refL = L if L is not None else max(h.V, key=lambda v: (s.objs[v].raftLastApplied, v))
+    early_applied = early_cid is not None and "early" in s.objs[refL].log
+    if early_applied and not e_acked:
+        skipped = _skipped(h, early_node, "early")
+        viol.append({"signature": "convergence:post-heal-command-not-acknowledged:"
+                                  + ("skipped-by-snapshot-on-submitter" if skipped else
+                                     ("submitter-stays-behind" if "early" not in s.objs[early_node].log
+                                      else "applied-without-callback")),
+                     "what": "command submitted on %s %.2f s after the heal, as soon as one leader was named by every node, is in the "
+                             "common state of all replicas but its submitter never got a callback (%s)%s"
+                             % (early_node, (early_step or 0) * DT, waited,
+                                "; the submitter never executed it: it received it inside a snapshot" if skipped else "")})
     ref = L if L is not None else max(h.V, key=lambda v: (s.objs[v].raftLastApplied, v))
     bh = _behind(h, ref)
     if bh:
-        viol.append({"signature": "convergence:replica-stays-behind",
-                     "what": "%s: raftLastApplied %d, %s %s has %d (%d behind; commit index there %d) after %s"
-                             % (bh[0][0], bh[0][1], "leader" if L is not None else "most advanced voter", ref, bh[0][2],
-                                bh[0][2] - bh[0][1], s.objs[bh[0][0]].raftCommitIndex, waited)})
-    df = _differ(h, ref)
+        i = bh[0][0]
+        # what the node that stays behind keeps telling the others (read off the wire, for the signature only)
+        hints = [m["next_node_idx"] for (a, b, m) in s.sent[n_sent0:] if a == i and m.get("type") == "next_node_idx"
+                 and m.get("reset")][-400:]
+        detail = "alternating-reset-hints" if (len(hints) >= 8 and len(set(hints)) >= 2) else \
+            ("repeated-reset-hint" if (len(hints) >= 8 and len(set(hints)) == 1) else "no-rejections")
+        viol.append({"signature": "convergence:replica-stays-behind:" + detail,
+                     "what": "%s: raftLastApplied %d, %s %s has %d (%d behind; commit index there %d) after %s; its last "
+                             "rejection hints (next_node_idx with reset) were %s"
+                             % (i, bh[0][1], "leader" if L is not None else "most advanced voter", ref, bh[0][2],
+                                bh[0][2] - bh[0][1], s.objs[i].raftCommitIndex, waited, hints[-6:])})
+    # identical state at the same applied position (a replica that is behind is reported above)
+    refpos = s.objs[ref].raftLastApplied
+    df = _differ(h, ref, [i for i in h.A if s.objs[i].raftLastApplied == refpos])
     if df is not None:
         viol.append({"signature": "convergence:states-differ",
-                     "what": "%s holds %d commands (last %r), %s holds %d (last %r) after %s"
-                             % (df[0], len(df[1]), [str(x)[:12] for x in df[1][-3:]], ref, len(df[2]),
+                     "what": "%s and %s both applied position %d, but %s holds %d commands (last %r) and %s holds %d (last %r) after %s"
+                             % (df[0], ref, refpos, df[0], len(df[1]), [str(x)[:12] for x in df[1][-3:]], ref, len(df[2]),
                                 [str(x)[:12] for x in df[2][-3:]], waited)})
     if s.errors:
         viol.append({"signature": "tick:exception-escapes",
@@ -760,16 +827,30 @@ def scenario(repo, p, workdir=None):
                 "state_installed_by_snapshot": len(by_snapshot), "reset_replies_after_heal": resets,
                 "entry_batches_after_heal": appends, "request_votes_after_heal": votes,
                 "post_node": "leader" if post_node == L else ("observer" if post_node in h.O else "follower"),
-                "t_leader": t_leader, "t_sync": t_sync, "t_ack": t_ack, "quiet_s": step * DT,
+                "t_leader": t_leader, "t_sync": t_sync, "t_ack": t_ack,
+                "early": None if early_cid is None else (FAIL_NAMES.get(e_acked[0][1], e_acked[0][1]) if e_acked else "none"),
+                "early_applied": bool(early_applied), "leader_changes": changes, "quiet_s": step * DT,
                 "final_applied": s.objs[ref].raftLastApplied, "final_commands": len(s.objs[ref].log),
                 "t_leader_bucket": _bucket(t_leader, unit) if t_leader is not None else ">40",
                 "t_sync_bucket": _bucket(t_sync, unit) if t_sync is not None else ">40"})
-    return {"viol": viol, "events": h.events, "cov": cov}
+    return {"viol": viol, "events": h.events, "cov": cov, "resolved": {"early": early_node, "post": post_node}}
 
 
-def _post_target(h, p, L):
-    want = p.get("post", "leader")
-    k = p.get("post_k", 0)
+def _skipped(h, node, x):
+    """the command is in the node's state although the node never executed it (it came inside a snapshot)"""
+    s = h.sim
+    return x in s.objs[node].log and not any(c == x for (_, c) in s.execs[node])
+
+
+def _post_target(h, p, L, which="post"):
+    want = p.get("post", "leader") if which == "post" else p.get("early", "follower")
+    k = p.get("post_k", 0) + (0 if which == "post" else 1)
+    if want in h.A:
+        return want                          # a concrete node (replays of shrunk histories)
+    if want == "lagging":
+        want = h.notes.get("lagging", "follower")
+        if want in h.A and want != L:
+            return want
     if want == "observer" and h.O:
         return h.O[k % len(h.O)]
     if want in ("follower", "observer"):
@@ -842,6 +923,7 @@ def directed_params(rng):
                            "rounds": rng.randrange(3, 9), "late_notice": rng.random() < 0.4}
                 out.append({"kind": kind, "nv": nv, "no": no, "conf": draw_conf(rng, kind), "var": var,
                             "seed": rng.randrange(10 ** 6), "post": ["leader", "follower", "observer"][(k + rep) % 3],
+                            "early": ["lagging", "follower", "observer", "leader"][(k // 2 + rep) % 4],
                             "post_k": rng.randrange(4), "heal_all": rng.random() < 0.7,
                             "dumpfile": kind in ("lag_snapshot", "compactions") and rng.random() < 0.35})
     return out
@@ -884,6 +966,7 @@ def random_params(rng, n):
                    "rounds": rng.randrange(2, 10), "late_notice": rng.random() < 0.4}
         out.append({"kind": kind, "nv": nv, "no": no, "conf": draw_conf(rng, kind), "var": var,
                     "seed": rng.randrange(10 ** 6), "post": rng.choice(["leader", "follower", "follower", "observer"]),
+                    "early": rng.choice(["lagging", "lagging", "follower", "observer", "leader"]),
                     "post_k": rng.randrange(4), "heal_all": rng.random() < 0.7,
                     "dumpfile": rng.random() < 0.15})
     return out
@@ -908,7 +991,7 @@ def corpus_params():
 
 def params(ctx):
     rng = ctx.rng("c05_convergence")
-    return corpus_params() + directed_params(rng) + random_params(rng, ctx.scale(40, 6000))
+    return corpus_params() + directed_params(rng) + random_params(rng, ctx.scale(300, 8000))
 
 
 # ------------------------------------------------------------------------------------------------
@@ -954,6 +1037,7 @@ def _work(args):
         import traceback
         return {"p": p, "error": traceback.format_exc()[-1500:], "wall": time.time() - t0}
     return {"p": p, "viol": r["viol"], "cov": r["cov"], "events": r["events"] if r["viol"] else None,
+            "resolved": r["resolved"],
             "wall": time.time() - t0}
 
 
@@ -970,13 +1054,15 @@ def run(ctx):
     t0 = time.time()
     ps = params(ctx)
     workdir = ctx.tmpdir()
-    budget = min(ctx.budget_s * 0.55, 13.0) if ctx.tier == "quick" else ctx.budget_s * 0.7
+    budget = min(ctx.budget_s * 0.5, 11.0) if ctx.tier == "quick" else ctx.budget_s * 0.7
     results = []
     if ctx.tier == "quick" or ctx.jobs <= 1:
+        bad = 0
         for p in ps:
-            if time.time() - t0 > budget:
+            if time.time() - t0 > budget or bad >= 6:      # a verdict is reached; violating histories run the whole period
                 break
             results.append(_work((ctx.repo, p, workdir)))
+            bad += 1 if results[-1].get("viol") else 0
     else:
         import multiprocessing as mp
         mpctx = mp.get_context("fork")
@@ -999,7 +1085,7 @@ def run(ctx):
            "elections_after_heal_histories": 0, "dumpfile_histories": 0, "auto_compaction_histories": 0,
            "small_batch_histories": 0, "fallback_le_2s_histories": 0, "fault_events": 0, "submissions": 0,
            "compactions": 0, "corpus_histories": 0, "planned": len(ps), "errors": 0,
-           "violating_histories": {}}
+           "violating_histories": {}, "early_command_outcome": {}}
     distinct = set()
     viols, sigs = [], set()
     errors = []
@@ -1017,6 +1103,7 @@ def run(ctx):
         _inc(cov["by_voters"], c["nv"])
         _inc(cov["by_observers"], c["no"])
         _inc(cov["post_node"], c["post_node"])
+        _inc(cov["early_command_outcome"], "%s/%s" % (c["early"], "applied" if c["early_applied"] else "not-applied"))
         _inc(cov["t_leader_in_raftMaxTimeouts"], c["t_leader_bucket"])
         _inc(cov["t_sync_in_raftMaxTimeouts"], c["t_sync_bucket"])
         for k_, src in (("max_t_sync_s", "t_sync"), ("max_t_leader_s", "t_leader"), ("max_t_ack_s", "t_ack")):
@@ -1054,6 +1141,9 @@ def run(ctx):
                 continue
             sigs.add(v["signature"])
             q = dict((k, x) for k, x in p.items() if k != "corpus")
+            for k_ in ("early", "post"):
+                if r["resolved"].get(k_):
+                    q[k_] = r["resolved"][k_]
             ev = r["events"]
             n0 = len(ev)
             if time.time() - t0 < ctx.budget_s * 0.8:
@@ -1074,6 +1164,7 @@ def run(ctx):
            "notes": "validation of C05 on real clusters (monitor), not the proof"}
     if errors:
         res["error"] = "history could not be executed: " + errors[0]
+    getattr(simmod, "restore_runtime", lambda: None)()      # components that need the real clock may run after this one
     floors = []
     need = ctx.scale(40, 1500)
     if cov["histories"] < need:
